@@ -6,6 +6,7 @@ kernel) and at quiescent points after every event (/proc/self/fd)."""
 import itertools
 import os
 
+PYOPT = 2  # every second shard also runs in an interpreter started with -O
 LEVEL = "fault_enumeration"
 RULE = (
     "all sequences over {E exec, F exec->CHECK CONDITION, e/f the same with en_raw_sense=True, R replug (node replaced: new inode), U unplug, X replug whose "
